@@ -677,6 +677,11 @@ func streamRender(c *corrOut, r *rng, n int, thorough bool) map[string]interface
 			rhistory{w: 120, h: 500, r0: 0, ops: []rop{{op: "size", w: 120, h: 500}, {op: "w", arg: "small"}, {op: "f"}, {op: "w", arg: strings.Join(big1, "\n")}, {op: "f"}, {op: "w", arg: strings.Join(big2, "\n") + "\n"}, {op: "st"}}},
 			rhistory{w: 120, h: 50, r0: 3, ops: []rop{{op: "size", w: 120, h: 50}, {op: "ea"}, {op: "w", arg: strings.Join(big1, "\n")}, {op: "f"}, {op: "w", arg: strings.Join(big2, "\n")}, {op: "f"}, {op: "w", arg: strings.Join(big1[:45], "\n") + "\n"}, {op: "st"}}})
 	}
+	// a line printed BEFORE the window size is known (Println from Init: the first WindowSizeMsg comes
+	// later), flushed after: it is laid out for the width the terminal has when it is written
+	corpus = append(corpus,
+		rhistory{w: 10, h: 6, r0: 0, ops: []rop{{op: "pl", arg: "0123456789ab"}, {op: "size", w: 10, h: 6}, {op: "w", arg: "aaa\nbbb"}, {op: "f"}, {op: "w", arg: "aaa\nccc"}, {op: "f"}}},
+		rhistory{w: 10, h: 6, r0: 1, ops: []rop{{op: "pl", arg: "0123456789"}, {op: "pl", arg: "xy"}, {op: "size", w: 10, h: 6}, {op: "w", arg: "v"}, {op: "f"}}})
 	run := func(h rhistory, bucket string) {
 		res := runHistory(h)
 		c.emit(h.line(), strings.Join(res.perOp, " | ")+" # "+res.state, bucket)
